@@ -124,7 +124,8 @@ def _covers(edge, strobes):
     """Under the edge's guard, is some strobe raised on every path?  (the strobes' extra atoms must cover)."""
     from ..fsm import assignments, holds, guard_atoms
     base = {a: p for a, p in guard_atoms(edge.guard)}
-    atoms = [a for s in strobes for a, _ in guard_atoms(s.guard)]
+    from ..fsm import lit_atoms
+    atoms = [a for s in strobes for l in s.guard for a in lit_atoms(l)]
     for asg in assignments(atoms, base):
         if not any(holds(s.guard, asg) for s in strobes):
             return False
